@@ -96,6 +96,30 @@ Definition hidden_verdict (u : run) : nat * string :=
   | inl _ => (0, "")
   end.
 
+(* C03, last clause ("the hidden recipients still receive the delivery"): every bto / bcc recipient of the posted activity
+   - for a client Create under the Social protocol also those of its embedded objects (normalisation), for a bare object its
+   own (the wrapping Create copies them) - was resolved for delivery (Database.InboxForActor asked for it) before the hand-over *)
+Definition ids_or_nil (p : string) (v : json) : list string := match ids_of p v with Ok l => l | _ => [] end.
+Definition hidden_of (v : json) : list string := ids_or_nil "bto" v ++ ids_or_nil "bcc" v.
+Definition expected_hidden (u : run) : list string :=
+  match (if String.eqb (u_entry u) "send" then Some (u_send u)
+         else match r_body (u_req u) with BJson j => match to_type j with Ok v => Some v | _ => None end | BNotJson => None end) with
+  | Some v =>
+      if is_activity v then
+        hidden_of v ++
+        (if String.eqb (u_entry u) "postoutbox" && c_social (u_cfg u) && is_or_extends (type_name v) "Create" && negb (mem "Create" (c_soc_other (u_cfg u)))
+         then flat_map (fun e => match e_type "object" e with Some o => hidden_of o | None => [] end) (elems0 "object" v) else [])
+      else hidden_of v
+  | None => []
+  end.
+Definition reached_verdict (u : run) : nat * string :=
+  if negb (String.eqb (u_entry u) "postoutbox" || String.eqb (u_entry u) "send") then (0, "") else
+  if negb (existsb (fun p => match p with (EBatchDeliver _ _, AOk) => true | _ => false end) (u_trace u)) then (0, "") else
+  let looked := flat_map (fun p => match fst p with EDb op [JStr i] => if String.eqb op "InboxForActor" then [i] else [] | _ => [] end) (u_trace u) in
+  if forallb (fun h => is_public h || mem h looked) (expected_hidden u) then (0, "")
+  else (1, "a hidden recipient - bto or bcc of the activity, or of an object of the client's Create - was not resolved for delivery: it does not receive the activity").
+Definition reached_bad := Eval vm_compute in
+  filter (fun x => Nat.eqb (fst (snd x)) 1) (map (fun p => (fst p, reached_verdict (snd p))) (combine (seq 0 (length observed)) observed)).
 Definition judged := Eval vm_compute in
   map (fun p => match p with (i, u) => (i, verdict_code (check_run u), lock_verdict u, gate_verdict u, (outcome_verdict u, serve_verdict u, hidden_verdict u)) end)
       (combine (seq 0 (length observed)) observed).
@@ -483,6 +507,7 @@ Definition world_of (x : list string * list (string * json) * list (string * ans
 Definition iff_verdict (p : nat * (list string * list (string * json) * list (string * ans) * nat)) : nat * string :=
   match nth_error observed (fst p) with
   | Some u =>
+      if negb (String.eqb (u_entry u) "postinbox") then (0, "") else
       match inbox_activity u with
       | Some a =>
           let ok200 := existsb (fun q => match fst q with EWriteHeader n => Nat.eqb n 200 | _ => false end) (u_trace u) in
@@ -502,6 +527,36 @@ Definition iff_stats := Eval vm_compute in
   (length worlds, length (filter (fun p => match nth_error observed (fst p) with
                                            | Some u => match inbox_activity u with Some a => must_forward (world_of (snd p) a) a | None => false end
                                            | None => false end) worlds)).
+(* C16 / C04, Add and Remove against the WORLD the run started from: every target collection this server owns (and holds as a
+   collection) was updated - also those after a target it does not own *)
+Definition is_col_json (t : json) : bool :=
+  (is_or_extends (type_name t) "OrderedCollection" && vhas t "orderedItems")
+  || (negb (is_or_extends (type_name t) "OrderedCollection") && is_or_extends (type_name t) "Collection" && vhas t "items").
+Definition targets_verdict (p : nat * (list string * list (string * json) * list (string * ans) * nat)) : nat * string :=
+  match nth_error observed (fst p) with
+  | Some u =>
+      let '(owned, store, _, _) := snd p in
+      match (if String.eqb (u_entry u) "send" then Some (u_send u)
+             else match r_body (u_req u) with BJson j => match to_type j with Ok v => Some v | _ => None end | BNotJson => None end) with
+      | Some v =>
+          let ty := type_name v in
+          if negb (String.eqb ty "Add" || String.eqb ty "Remove") then (0, "") else
+          let inbox_side := String.eqb (u_entry u) "postinbox" in
+          let overridden := mem ty (if inbox_side then c_fed_other (u_cfg u) else c_soc_other (u_cfg u)) in
+          let ran := existsb (fun q => match fst q with EApp n _ => String.eqb n (if inbox_side then "FederatingCallbacks" else "SocialCallbacks") | _ => false end) (u_trace u) in
+          let accepted := if String.eqb (u_entry u) "send" then String.eqb (u_result u) "ok"
+                          else existsb (fun q => match fst q with EWriteHeader n => Nat.eqb n (if inbox_side then 200 else 201) | _ => false end) (u_trace u) in
+          if overridden || negb ran || negb accepted then (0, "") else
+          let want := filter (fun t => mem t owned && match assoc t store with Some c => is_col_json c | None => false end) (ids_or_nil "target" v) in
+          let updated := flat_map (fun q => match q with (EDb op [a], AOk) => if String.eqb op "Update" then [id_str a] else [] | _ => [] end) (u_trace u) in
+          if forallb (fun t => mem t updated) want then (0, "")
+          else (1, "accepted, but a target collection this server owns was not updated")
+      | None => (0, "")
+      end
+  | None => (0, "")
+  end.
+Definition targets_bad := Eval vm_compute in
+  filter (fun x => Nat.eqb (fst (snd x)) 1) (map (fun p => (fst p, targets_verdict p)) worlds).
 Definition forward_stats := Eval vm_compute in
   (length (filter (fun u => Nat.ltb 0 (count_fwd u)) observed), length sequences,
    length (filter (fun u => existsb (fun p => match fst p with EApp n _ => String.eqb n "FilterForwarding" | _ => false end) (u_trace u)) observed)).
@@ -512,6 +567,7 @@ Print gate_bad.
 Print outcome_bad.
 Print serve_bad.
 Print hidden_bad.
+Print reached_bad.
 Print delivery_bad.
 Print delivery_stats.
 Print create_bad.
@@ -523,6 +579,7 @@ Print effects_stats.
 Print fed_bad.
 Print forward_bad.
 Print iff_bad.
+Print targets_bad.
 Print iff_stats.
 Print sequence_bad.
 Print forward_stats.
